@@ -2,9 +2,8 @@ CONSTANTS
   MaxChildren = 2
   MaxTemps = 2
   QMax = 10
-  MaxPending = 2
+  MaxPending = 1
 SPECIFICATION Spec
 INVARIANTS TypeOK Restored ExitAlwaysPossible CommandOwnsTerminal RawOnlyWhileReading OnlyConfigured QBound
-PROPERTY ExitCompletes
 CONSTRAINT PendingBound
 CHECK_DEADLOCK FALSE
